@@ -573,32 +573,38 @@ def pair(name, a, b):
 
 def component_routes(model, n, declared, handed, pairs, first):
     """The components on their own, as any caller may use them: a second, identical, never-used temperature component
-    and chemistry (built from the recipe, so nothing of the model is touched) are handed the HARNESS'S arrays -- copies
-    of what the model exposes -- initialised, and read twice.  The handed arrays are compared with private copies."""
+    and chemistry (built from the recipe, so nothing of the model is touched) are handed the HARNESS'S arrays, are
+    initialised, and read twice.  The handed arrays are compared with private copies.  They hold what the model exposes
+    times (1 + 2^-20): equally legal profiles whose bit patterns have never been through the implementation (a write
+    that is idempotent -- a round trip through another unit, a clip -- would leave an array the model itself had handed
+    over before exactly as it is)."""
     P, T, z = first.get('pressure_profile'), first.get('temp_profile'), first.get('altitude_profile')
     if P is None or T is None or P.shape != (n,) or T.shape != (n,):
         return                      # (reported by the other events)
+    eps = 1.0 + 2.0 ** -20
     try:
         tp = declared['make_temp']()
-        own = P.copy()
+        own = P * eps
+        keep = own.copy()
         tp.initialize_profile(model.planet, n, own)
         t1 = np.array(tp.profile, dtype=float, copy=True)
         mid_ = own.copy()
         t2 = np.array(tp.profile, dtype=float, copy=True)
-        handed.append(pair('temperature.initialize_profile:pressure', P, mid_))
-        handed.append(pair('temperature.profile:pressure', P, own))
+        handed.append(pair('temperature.initialize_profile:pressure', keep, mid_))
+        handed.append(pair('temperature.profile:pressure', keep, own))
         pairs.append(pair('component:temperature.profile', t1, t2))
     except Exception as e:
         handed.append(dict(name='temperature.initialize_profile:raised-%s' % type(e).__name__, same=False, a=[], b=[]))
     try:
         ch = declared['chem']['make']()
-        ownP, ownT, ownz = P.copy(), T.copy(), (None if z is None else z.copy())
+        ownP, ownT, ownz = P * eps, T * eps, (None if z is None else z * eps)
+        keepP, keepT, keepz = ownP.copy(), ownT.copy(), (None if ownz is None else ownz.copy())
         ch.set_star_planet(model.star, model.planet)
         ch.initialize_chemistry(n, ownT, ownP, ownz)
         reads = [(np.array(ch.muProfile, dtype=float, copy=True), np.array(ch.activeGasMixProfile, dtype=float, copy=True))
                  for _ in range(2)]
         handed.extend(pair('chemistry.initialize_chemistry:' + nm, a, b)
-                      for nm, a, b in (('pressure', P, ownP), ('temperature', T, ownT), ('altitude', z, ownz)))
+                      for nm, a, b in (('pressure', keepP, ownP), ('temperature', keepT, ownT), ('altitude', keepz, ownz)))
         pairs.append(pair('component:chemistry.muProfile', reads[0][0], reads[1][0]))
         pairs.append(pair('component:chemistry.activeGasMixProfile', reads[0][1], reads[1][1]))
     except Exception as e:
@@ -624,10 +630,13 @@ def route_events(model, mid, n, declared, lev, X, handed):
     C = X['C']
     unit = declared['unit']
     u = unit_factor(unit)
-    # the arrays handed over are the harness's own; private copies are kept and compared after the call
-    T = np.array(model.temperatureProfile, dtype=float, copy=True)
-    mu = np.array(model.chemistry.muProfile, dtype=float, copy=True)
-    levh = np.array(lev, dtype=float, copy=True)
+    # the arrays handed over are the harness's own (what the model exposes times (1 + 2^-20): bit patterns that have
+    # never been through the implementation); private copies are kept, compared after the call, and the step
+    # obligation is judged for the values AS HANDED
+    eps = 1.0 + 2.0 ** -20
+    T = np.array(model.temperatureProfile, dtype=float, copy=True) * eps
+    mu = np.array(model.chemistry.muProfile, dtype=float, copy=True) * eps
+    levh = np.array(lev, dtype=float, copy=True) * eps
     keepT, keepmu, keeplev = T.copy(), mu.copy(), levh.copy()
     try:
         rz, rH, rg, rdz = model.planet.calculate_scale_properties(T, levh, mu, length_units=unit)
@@ -638,8 +647,8 @@ def route_events(model, mid, n, declared, lev, X, handed):
     keep = list(range(n)) if n <= 12 else sorted(set([0, 1, 2, n - 2, n - 1] + list(range(3, n - 2, max(1, n // 7)))))
     ev, floats = [], []
     for i in keep:
-        lr = ln_ratio(lev[i], lev[i + 1]) if (len(lev) == n + 1 and lev[i] > 0 and lev[i + 1] > 0 and lev[i] > lev[i + 1]) else None
-        vals = dict(z0=at(rz, i), z1=at(rz, i + 1), dz=at(rdz, i), H=at(rH, i), g=at(rg, i), T=at(T, i), mu=at(mu, i), Lr=lr,
+        lr = ln_ratio(keeplev[i], keeplev[i + 1]) if (len(keeplev) == n + 1 and keeplev[i] > 0 and keeplev[i + 1] > 0 and keeplev[i] > keeplev[i + 1]) else None
+        vals = dict(z0=at(rz, i), z1=at(rz, i + 1), dz=at(rdz, i), H=at(rH, i), g=at(rg, i), T=at(keepT, i), mu=at(keepmu, i), Lr=lr,
                     rho=None, P=None, rad=float(declared['radius'] * C.RJUP),
                     gm=float(C.G * declared['mass'] * C.MJUP), kB=float(C.KBOLTZ), u=u)
         d = dict(ev='step', id='%s:route:%s:step:%d' % (mid, unit, i), i=i, n=n, ppb=PPB, route='planet')
